@@ -21,12 +21,7 @@ def finding_key(req, obs, detail):
     if m:
         # path relative to the repository root, wherever the repository is checked out (VERIF_REPO)
         path = re.sub(r"^.*?((?:hlsl|msl|ir|typer|parser|formatter|preprocess|text|ast|src)/(?:src/)?[^/]+\.rs)$", r"\1", m.group(1))
-        key = "panic %s: %s" % (path, re.sub(r"\d+", "N", m.group(2)))
-        if "literal should not be required on output" in key and "?" in _fields(req)[1]:
-            # a vector of a literal type: repaired for binary operations (fix 40c6233: the bare key is a `fixed` record, so its
-            # return is a VIOLATION); parse_expr_ternary still builds such a type for the arms of ?: — a known finding of its own
-            key += " [operand of ?:]"
-        return key
+        return "panic %s: %s" % (path, re.sub(r"\d+", "N", m.group(2)))
     f = _fields(req)
     # the specific input: source text, function and argument vectors (ctx / ir are derived from the source)
     return "input " + "\t".join(f[1:4])
@@ -221,11 +216,12 @@ SPEC = {
                   "increment of vectors, no matrices, structs, arrays, enums, methods, templates, default parameters, overloads, vector built-ins — "
                   "those are covered by the C01.vfn stream only (test, two independent evaluators, both flavours, bit-exact), as are "
                   "16/64-bit constants not at all; casts to a literal type are excluded (negation proved with a witness and replayed; "
-                  "a vector operation with a literal operand (`boolvec + 1`, `intvec * 1.5`) is typed in the concrete vector type since "
-                  "fix 40c6233 and proved exported with its meaning kept (vector_op_literal_in_concrete_type); "
-                  "casts to a *vector* of a literal type still panic the exporter: proved as literal_vector_cast_panics; the type "
-                  "checker still builds one for the arms of ?: — known finding; generate_literal never panics on a modelled constant, "
-                  "an IntLiteral beyond +-u64::MAX is the export error IntLiteralOutOfRange since fix 6017bad: literal_never_panics); "
+                  "a vector operation or ?: with a literal operand (`boolvec + 1`, `intvec * 1.5`, `c ? intvec : 1.5`) is typed in the "
+                  "concrete vector type since fixes 40c6233 / c05bffa and proved exported with its meaning kept "
+                  "(vector_op_literal_in_concrete_type); a cast to a *vector* of a literal type, which the type checker no longer "
+                  "builds, would still panic the exporter (literal_vector_cast_panics, excluded by VIr.typeOf); generate_literal never "
+                  "panics on a modelled constant, an IntLiteral beyond +-u64::MAX is the export error IntLiteralOutOfRange since fix "
+                  "6017bad (literal_never_panics); "
                   "printing/parsing of the tree is C09's (cited obligations tables_agree, assoc_agrees, paren_rule_matches_grammar, "
                   "roundtrip_expr_partial; composed informally), name hygiene C15's.",
     "trusted_base": [
